@@ -624,7 +624,7 @@ func (v *V) sortKeysShallow() *V {
 }
 
 func genC13(r *R, n int, tier string, out *Out) {
-	o := &TreeOpts{Depth: 5, Width: 4, Floats: (*R).anyFloat, Str: (*R).str, Key: (*R).key}
+	o := &TreeOpts{Depth: 5, Width: 4, Floats: (*R).anyFloat, Str: (*R).str, Key: (*R).key, Stress: true}
 	for i := 0; i < n; i++ {
 		var t *V
 		if r.chance(0.5) {
@@ -742,7 +742,9 @@ func genC13(r *R, n int, tier string, out *Out) {
 				f.fail("Dict() has %d entries, Count() = %d", len(d), cc.Count())
 			}
 			for k, e := range d {
-				if !sameAny(e, cc.Get(k)) {
+				if !cc.KeyExists(k) {
+					f.fail("Dict() holds the key %q, which the object does not have", k)
+				} else if !sameAny(e, cc.Get(k)) {
 					f.fail("Dict()[%q] is not what Get returns", k)
 				}
 			}
